@@ -1060,6 +1060,11 @@ func (fx *FnCtx) call(v *ssa.Call, c *ssa.CallCommon) {
 		fx.obligNamed(fmt.Sprintf("%s#dec@call.%d", fx.key, n), tFalse, "recursive function without decreases clause", nil, "")
 	}
 	// effects
+	if (!fc.Pure || fc.Allocates) && !fc.ModAll {
+		nn := fx.freshConst("next", "Int")
+		fx.assume(app("Bool", "<=", st.next, nn))
+		st.next = nn
+	}
 	if fc.ModAll {
 		fx.havocAll(st)
 	} else {
@@ -1090,17 +1095,13 @@ func (fx *FnCtx) call(v *ssa.Call, c *ssa.CallCommon) {
 			for _, cn := range cs {
 				fx.fresh++
 				st.heap[cn] = Term{fmt.Sprintf("Hc_%s_%d", sanitize(cn), fx.fresh), ""}
+				fx.havocNext[st.heap[cn].S] = st.next
 				fx.written[cn] = true
 				if s, ok := fx.compSort[cn]; ok {
 					_ = st.getHeap(P, cn, s)
 				}
 			}
 		}
-	}
-	if !fc.Pure || fc.Allocates {
-		nn := fx.freshConst("next", "Int")
-		fx.assume(app("Bool", "<=", st.next, nn))
-		st.next = nn
 	}
 	// results
 	var rs []Term
@@ -1179,6 +1180,7 @@ func (fx *FnCtx) havocAll(st *State) {
 	nn := fx.freshConst("next", "Int")
 	fx.assume(app("Bool", "<=", st.next, nn))
 	st.next = nn
+	fx.havocNext[st.base] = nn
 }
 
 func (fx *FnCtx) builtin(v *ssa.Call, c *ssa.CallCommon, b *ssa.Builtin) {
@@ -1312,9 +1314,13 @@ func (fx *FnCtx) appendCall(v *ssa.Call, c *ssa.CallCommon) {
 			Term{fmt.Sprintf("(forall ((k Int)) (! (=> (and (<= 0 k) (< k %s)) (= (select %s k) (select %s (+ %s k)))) :pattern ((select %s k))))", sl.S, ni.S, oldInnerS.S, soff.S, ni.S), "Bool"},
 			eq(app(es, "select", ni, sl), singleVal))))
 	} else {
-		fx.assume(Term{fmt.Sprintf("(forall ((k Int)) (! (=> (and (<= 0 k) (< k %s)) (= (select %s (+ %s k)) (select %s (+ %s k)))) :pattern ((select %s (+ %s k)))))", sl.S, ni.S, roff.S, oldInnerS.S, soff.S, ni.S, roff.S), "Bool"})
-		kk := Term{"k", "Int"}
-		fx.assume(Term{fmt.Sprintf("(forall ((k Int)) (! (=> (and (<= 0 k) (< k %s)) (= (select %s (+ %s %s k)) %s)) :pattern ((select %s (+ %s %s k)))))", addLen.S, ni.S, roff.S, sl.S, elemAt(kk).S, ni.S, roff.S, sl.S), "Bool"})
+		// absolute positions j of the new backing array (pattern: any read of it)
+		jj := Term{"j", "Int"}
+		// copied prefix
+		fx.assume(Term{fmt.Sprintf("(forall ((j Int)) (! (=> (and (<= %s j) (< j (+ %s %s))) (= (select %s j) (select %s (+ %s (- j %s))))) :pattern ((select %s j))))", roff.S, roff.S, sl.S, ni.S, oldInnerS.S, soff.S, roff.S, ni.S), "Bool"})
+		// appended elements
+		rel := app("Int", "-", app("Int", "-", jj, roff), sl)
+		fx.assume(Term{fmt.Sprintf("(forall ((j Int)) (! (=> (and (<= (+ %s %s) j) (< j (+ %s %s))) (= (select %s j) %s)) :pattern ((select %s j))))", roff.S, sl.S, roff.S, nl.S, ni.S, elemAt(rel).S, ni.S), "Bool"})
 		// in place: cells outside the appended window are unchanged
 		fx.assume(implies(fits, Term{fmt.Sprintf("(forall ((j Int)) (! (=> (or (< j (+ %s %s)) (>= j (+ %s %s))) (= (select %s j) (select %s j))) :pattern ((select %s j))))", roff.S, sl.S, roff.S, nl.S, ni.S, oldInnerS.S, ni.S), "Bool"}))
 	}
@@ -1354,7 +1360,7 @@ func (fx *FnCtx) copyCall(v *ssa.Call, c *ssa.CallCommon) {
 	ni := fx.freshConst("copy_inner", is)
 	old := app(is, "select", h, app("Int", "s_arr", dst))
 	doff := app("Int", "s_off", dst)
-	fx.assume(Term{fmt.Sprintf("(forall ((k Int)) (! (=> (and (<= 0 k) (< k %s)) (= (select %s (+ %s k)) %s)) :pattern ((select %s (+ %s k)))))", n.S, ni.S, doff.S, srcAt("k"), ni.S, doff.S), "Bool"})
+	fx.assume(Term{fmt.Sprintf("(forall ((j Int)) (! (=> (and (<= %s j) (< j (+ %s %s))) (= (select %s j) %s)) :pattern ((select %s j))))", doff.S, doff.S, n.S, ni.S, srcAt("(- j "+doff.S+")"), ni.S), "Bool"})
 	fx.assume(Term{fmt.Sprintf("(forall ((j Int)) (! (=> (or (< j %s) (>= j (+ %s %s))) (= (select %s j) (select %s j))) :pattern ((select %s j))))", doff.S, doff.S, n.S, ni.S, old.S, ni.S), "Bool"})
 	st.setHeap(comp, app(hs, "store", h, app("Int", "s_arr", dst), ni))
 }
@@ -1395,6 +1401,14 @@ func localAlwaysFresh(a *ssa.Alloc, depth int) bool {
 		}
 		switch v := s.Val.(type) {
 		case *ssa.MakeSlice, *ssa.MakeMap:
+		case *ssa.Alloc:
+			if !v.Heap {
+				return false
+			}
+		case *ssa.Slice:
+			if !isFreshBase(v.X) {
+				return false
+			}
 		case *ssa.Const:
 			if v.Value != nil {
 				return false
